@@ -1,8 +1,7 @@
 import Slock.Model.Aof
 /-!
 Reader lemmas for M-AOF: what one `bufio.Reader.Read` returns, `ReadLock` on a complete record (for EVERY buffer
-size and fill state), `ReadLock` at the end of the file, `ReadLock` on a torn tail (either "Lock Len error" or success
-with the old buffer's bytes), `ReadLockData` on a complete / cut value frame.
+size and fill state), `ReadLock` at the end of the file, `ReadLock` on a torn tail (either "Lock Len error" or io.EOF), `ReadLockData` on a complete / cut value frame.
 -/
 namespace Slock.Aof
 
@@ -151,7 +150,7 @@ theorem readLock_complete (r : Rd) (b tl : Bytes) (hi : r.Inv) (hb : WFBuf b) (h
       have hne : ¬ r.avail = 62 + 2 := by omega
       simp only [hne, if_false]
       change (match r1.read (64 - r.avail) with
-        | none => LockRes.ok _ r1
+        | none => LockRes.eof _
         | some (nn, r2) => _) = _
       rw [hr2]
       simp only
@@ -175,7 +174,7 @@ theorem readLock_complete (r : Rd) (b tl : Bytes) (hi : r.Inv) (hb : WFBuf b) (h
       rw [this, htake]
 
 /-- At the end of the file `ReadLock` returns io.EOF and leaves the buffer alone. -/
-theorem readLock_eof (r : Rd) (old : Bytes) (hi : r.Inv) (hs : r.s = []) : readLock r old = .eof := by
+theorem readLock_eof (r : Rd) (old : Bytes) (hi : r.Inv) (hs : r.s = []) : readLock r old = .eof old := by
   unfold readLock
   rw [read_none r 64 hi (by omega) (by simp [hs])]
 
@@ -192,12 +191,12 @@ theorem le16_overlay_prefix (b old : Bytes) (m : Nat) (hb : WFBuf b) (ho : OldOK
     simp [le16_cons2]
 
 /-- `ReadLock` on a torn tail (`t` = the first `res` bytes of a record, 0 < res < 64, nothing after it): either
-"Lock Len error" (the tail straddles a buffer refill), or SUCCESS with a buffer made of the `res` new bytes followed by the
-old buffer's bytes `res..63`. Never io.EOF, never a clean stop. -/
+"Lock Len error" (the tail straddles a buffer refill: the second read returns the few remaining bytes), or io.EOF — the same
+outcome as at a clean end of the file; only the reused buffer differs (its first `res` bytes were overwritten). Never success. -/
 theorem readLock_torn (r : Rd) (b : Bytes) (res : Nat) (hi : r.Inv) (hb : WFBuf b)
     (h0 : 0 < res) (h64 : res < 64) (hs : r.s = b.take res) :
     (∀ old, OldOK old → readLock r old = .lenErr) ∨
-    ∃ r', r'.s = [] ∧ r'.cap = r.cap ∧ r'.Inv ∧ ∀ old, OldOK old → readLock r old = .ok (b.take res ++ old.drop res) r' := by
+    (∀ old, OldOK old → readLock r old = .eof (b.take res ++ old.drop res)) := by
   have hbl := hb.length
   have hsl : r.s.length = res := by rw [hs]; simp; omega
   obtain ⟨m, r1, hr1, hm0, hmk, hms, hs1, hc1, hi1⟩ := read_some r 64 hi (by omega) (by omega)
@@ -206,7 +205,6 @@ theorem readLock_torn (r : Rd) (b : Bytes) (res : Nat) (hi : r.Inv) (hb : WFBuf 
   by_cases hfull : m = res
   · right
     have hs1' : r1.s.length = 0 := by rw [hs1]; simp; omega
-    refine ⟨r1, by simpa using hs1', hc1, hi1, ?_⟩
     intro old ho
     have hlen : le16 (overlay old 0 (r.s.take m)) 0 = 62 := by rw [htk]; exact le16_overlay_prefix b old m hb ho hm0
     unfold readLock
